@@ -163,6 +163,13 @@ def enumerate_cases(tier, seed):
                         cases.append({"mode": "exposure", "pipe": pname, "steps": steps, "site": {"name": model, "step": step},
                                       "exc": exc})
                     first = False
+    # exposure with debug capture (another code path around every model call)
+    for pname in PIPES:
+        for step in range(2):
+            for g, model in PIPES[pname]:
+                for exc in ("ValueError", "KeyError", "ProbeStop"):
+                    cases.append({"mode": "exposure", "pipe": pname, "steps": 2, "debug": True,
+                                  "site": {"name": model, "step": step}, "exc": exc})
     # sequential observation
     for omode in ("product", "sequential", "custom"):
         for steps in ((1, 2) if thorough else (1,)):
@@ -310,6 +317,8 @@ def run_case(case):
 
     def bad(code, what, **extra):
         key = {"mode": mode, "code": code}
+        if case.get("debug"):
+            key["debug"] = True
         if case.get("entry"):
             key["entry"] = case["entry"]
         if mode == "obs_seq":
@@ -336,7 +345,7 @@ def run_case(case):
                 result = pyxel.run(_write_yaml(case, tmp))
             elif mode == "exposure":
                 result = pyxel.run_mode(mk.exposure([float(i + 1) for i in range(case["steps"])]), det, pipe,
-                                        with_inherited_coords=True)
+                                        with_inherited_coords=True, debug=bool(case.get("debug")))
             elif mode == "obs_seq":
                 obs = build_observation(case["omode"], case["pipe"], case["steps"], False, tmp)
                 result = pyxel.run_mode(obs, det, pipe, with_inherited_coords=True)
@@ -419,7 +428,8 @@ def run_case(case):
                 break
         if idx is not None and len(log) > idx + 1:
             bad("continued", f"{len(log) - idx - 1} model call(s) executed after the failing one: {log[idx + 1:][:4]}")
-    return {"viol": viol, "sig": cfgx.sig([mode, case.get("entry"), case.get("omode"), case.get("sched"), case.get("order"), site, case["exc"]]),
+    return {"viol": viol, "sig": cfgx.sig([mode, case.get("entry"), case.get("omode"), case.get("sched"), case.get("order"), site, case["exc"],
+                                           case.get("debug"), case.get("vector")]),
             "nontrivial": True, "n": 1,
             "outcome": {"raised": None if raised is None else type(raised).__name__, "phase": phase, "calls": len(log)}}
 
